@@ -109,3 +109,45 @@ package poseidon
 //@   reveal sp_add_prc
 //@   ensures canonState(res)
 //@   ensures res == sp_poseidon(input)
+
+// ================================================================== BN254 Poseidon (width 4, 8 full + 56 partial rounds)
+// Specification transcribed from the in-repo reference crypto/plonky2_bn128/src/poseidon_bn128.rs
+// (permution / ark / exp5 / full_rounds / partial_rounds / mix) and config.rs (hash_no_pad,
+// hash_or_noop, two_to_one, to_vec), over integers mod R, using the Go constant tables
+// (their equality with poseidon_bn128_constants.rs is a separate table obligation).
+//@ opaque def bn_exp5(x) = ((((x * x) % R) * ((x * x) % R)) % R * x) % R
+//@ def bn_ark(s, it) = mktuple(4, i, (s[i] + cConstants[it + i]) % R)
+//@ def bn_exp5s(s) = mktuple(4, i, bn_exp5(s[i]))
+//@ def bn_mix(s, m) = mktuple(4, i, iterate(4, j, acc, 0, (acc + m[j][i] * s[j]) % R))
+//@ def bn_full_step_first(s, i) = bn_mix(bn_ark(bn_exp5s(s), (i + 1) * 4), mMatrix)
+//@ def bn_full_first(s) = bn_mix(bn_ark(bn_exp5s(iterate(3, i, acc, s, bn_full_step_first(acc, i))), 16), pMatrix)
+//@ def bn_full_step_second(s, i) = bn_mix(bn_ark(bn_exp5s(s), 76 + i * 4), mMatrix)
+//@ def bn_full_second(s) = bn_mix(bn_exp5s(iterate(3, i, acc, s, bn_full_step_second(acc, i))), mMatrix)
+//@ def bn_partial_fin(t, i) = tuple(iterate(4, j, acc, 0, (acc + sConstants[7*i + j] * t[j]) % R), (t[1] + t[0] * sConstants[7*i + 4]) % R, (t[2] + t[0] * sConstants[7*i + 5]) % R, (t[3] + t[0] * sConstants[7*i + 6]) % R)
+//@ def bn_partial_step(s, i) = bn_partial_fin(tuple((bn_exp5(s[0]) + cConstants[20 + i]) % R, s[1], s[2], s[3]), i)
+//@ def bn_partial(s) = iterate(56, i, acc, s, bn_partial_step(acc, i))
+//@ def bn_perm(s) = bn_full_second(bn_partial(bn_full_first(bn_ark(s, 0))))
+// the permutation as four opaque scalar functions, for the sponge, the compression function and Merkle paths
+//@ opaque def bn_p0(s0, s1, s2, s3) = bn_perm(tuple(s0, s1, s2, s3))[0]
+//@ opaque def bn_p1(s0, s1, s2, s3) = bn_perm(tuple(s0, s1, s2, s3))[1]
+//@ opaque def bn_p2(s0, s1, s2, s3) = bn_perm(tuple(s0, s1, s2, s3))[2]
+//@ opaque def bn_p3(s0, s1, s2, s3) = bn_perm(tuple(s0, s1, s2, s3))[3]
+//@ def bn_pt(s) = tuple(bn_p0(s[0], s[1], s[2], s[3]), bn_p1(s[0], s[1], s[2], s[3]), bn_p2(s[0], s[1], s[2], s[3]), bn_p3(s[0], s[1], s[2], s[3]))
+
+//@ func (c *BN254Chip) exp5(x frontend.Variable) (res frontend.Variable)
+//@   props C10
+//@   circuit
+//@   reveal bn_exp5
+//@   ensures res == bn_exp5(x)
+
+//@ func (c *BN254Chip) Poseidon(state BN254State) (res BN254State)
+//@   props C10
+//@   circuit
+//@   reveal bn_p0 bn_p1 bn_p2 bn_p3
+//@   ensures res == bn_perm(state)
+//@   ensures res == bn_pt(state)
+
+//@ func (c *BN254Chip) TwoToOne(left BN254HashOut, right BN254HashOut) (res BN254HashOut)
+//@   props C10
+//@   circuit
+//@   ensures res == bn_p0(0, 0, left, right)
